@@ -349,6 +349,7 @@ def run(ctx):
             stage_fixtures(ctx, pq, w)
         stage_direct(ctx, pq, w)
         stage_files(ctx, pq, w)
+        stage_hybrid_spec(ctx, pq)
     finally:
         pq.close()
         w.close()
@@ -980,8 +981,30 @@ def impl_cells_idx(case, cells, vts):
     return out
 
 
+HYB_SAMPLES = []
+
+
 def write_case(case, path):
-    return NF.write_file(path, case["cols"], case["rgs"])
+    NF.LEVEL_LOG = []
+    try:
+        return NF.write_file(path, case["cols"], case["rgs"])
+    finally:
+        if len(HYB_SAMPLES) < 4000:
+            HYB_SAMPLES.extend(NF.LEVEL_LOG[:6])
+        NF.LEVEL_LOG = None
+
+
+def stage_hybrid_spec(ctx, pq):
+    """the level / dictionary-index streams the spec-level writer put into the files are exactly what the proved spec
+    encoder Codec/Hybrid.v hyb_enc (round trip hyb_roundtrip) produces for the same runs"""
+    rng = ctx.rng
+    picks = HYB_SAMPLES if len(HYB_SAMPLES) <= 600 else rng.sample(HYB_SAMPLES, 600)
+    outs = pq.batch([("hyb_enc", w, [[r[0], r[1], r[2]] if r[0] == "rle" else [r[0], list(r[1])] for r in runs]) for (w, runs, b) in picks])
+    for (w, runs, b), o in zip(picks, outs):
+        case = {"stage": "hybrid-spec", "width": w, "runs": runs if len(json.dumps(runs)) < 300 else {"n_runs": len(runs)}}
+        ctx.case(case)
+        ctx.correspondence("Coq hyb_enc (spec, proved round trip) ~ harness/nestedfile.hybrid bytes in the written files", case,
+                           o.hex() if isinstance(o, (bytes, bytearray)) else repr(o), b.hex())
 
 
 def check_file_case(ctx, pq, w, case, path, conf_budget):
